@@ -298,6 +298,25 @@ func reach(c *explore.Ctx, visit func(scope string, idx int64, st *state)) {
 		}
 		st := &state{desc: "merged " + desc, bytes: r.bytes, n: int64(r.n), want: r.want, mode: r.cfg.Out, depth: 1, merged: true}
 		emit(scope, idx, st)
+		// the public Merge(...).WriteTo path must write the same file and report its length, whatever
+		// the merge buffer size (0 and negative sizes mean "default")
+		if r.cfg.Out == 1025 && (!c.Replay || (scope == c.ReplayScope && idx == c.ReplayIndex)) {
+			for _, bufSize := range []int{0, -1, 1, 4096} {
+				var w sliceWriter
+				var n int64
+				var err error
+				msg := explore.Guard(func() { n, err = ice.Merge(r.segs, r.drops, bufSize).WriteTo(&w, nil) })
+				c.R.Transitions++
+				if msg != "" || err != nil {
+					c.Violate(scope, idx, sigOf(c.Prop, "public-merge", "error: "+errText(msg, err)), errText(msg, err), fmt.Sprintf("%s bufSize=%d", desc, bufSize))
+					break
+				}
+				if n != int64(len(w.b)) || !bytes.Equal(w.b, r.bytes) {
+					c.Violate(scope, idx, c.Prop+"/public-merge/byte-count-or-bytes", fmt.Sprintf("Merge(...,%d).WriteTo returned n=%d, wrote %d bytes, identical to the hook's output=%v", bufSize, n, len(w.b), bytes.Equal(w.b, r.bytes)), desc)
+					break
+				}
+			}
+		}
 		depth2(scope, idx, st)
 	}
 	cfgs := mergeCfgsQuick[:2]
